@@ -83,6 +83,11 @@ impl Stream for Scripted {
 
 impl Transport for Scripted {
     fn dial(&mut self, id: ConnectionId, address: Multiaddr) -> crate::Result<()> {
+        // as `TcpTransport::dial`: the address is parsed (synchronously) before anything is recorded
+        {
+            use crate::transport::common::listener::{GetSocketAddr, TcpAddress};
+            TcpAddress::multiaddr_to_socket_address(&address)?;
+        }
         self.record("dial", id, vec![address]);
         Ok(())
     }
